@@ -667,13 +667,22 @@ impl FromIterator<Paragraph> for Deb822 {
     fn from_iter<T: IntoIterator<Item = Paragraph>>(iter: T) -> Self {
         let mut builder = GreenNodeBuilder::new();
         builder.start_node(ROOT.into());
-        for (i, paragraph) in iter.into_iter().enumerate() {
+        let mut paragraphs = iter.into_iter().enumerate().peekable();
+        while let Some((i, paragraph)) = paragraphs.next() {
             if i > 0 {
                 builder.start_node(EMPTY_LINE.into());
                 builder.token(NEWLINE.into(), "\n");
                 builder.finish_node();
             }
-            inject(&mut builder, paragraph.0);
+            if paragraphs.peek().is_some() {
+                // Only the last line of a document may lack its line end: terminate a copy of
+                // the paragraph (the original may be part of another document)
+                let paragraph = SyntaxNode::new_root_mut(paragraph.0.green().into_owned());
+                ensure_trailing_newline(&paragraph);
+                inject(&mut builder, paragraph);
+            } else {
+                inject(&mut builder, paragraph.0);
+            }
         }
         builder.finish_node();
         Self(SyntaxNode::new_root_mut(builder.finish()))
